@@ -23,22 +23,44 @@
 // nothing legitimately discards them.)  State machine probes: send on a fresh
 // context, on a context that never receives (all through the run), on the
 // idle socket, and a second send after a response -> NNG_ESTATE.
+//
+// Second-audit additions:
+//  * one raw TCP surveyor per case (if there is one) is cut mid-run; just
+//    before, it sends 1-3 surveys marked HOLD, which the workers keep until
+//    the RESPONDENT has removed that pipe (NNG_PIPE_EV_REM_POST seen), then
+//    answer (the reply is dropped) - the send after that reply must be
+//    refused with NNG_ESTATE like any second send.
+//  * raw TCP surveyors now and then stop reading for 50-200 ms after asking
+//    for a burst of replies padded to 3-4 MB, more of them than there are
+//    workers.  The pipe stays busy, replies queue up behind it (a worker does
+//    not wait for such a send: it receives the next survey with the reply
+//    still pending) and a context that gets a second survey of the burst
+//    replaces its queued reply: that send ends with NNG_ECANCELED and its
+//    reply must never arrive; every other send ends with 0 and its reply
+//    arrives on the right connection with the right backtrace, once.
 #include "vfh.h"
 
 #include <errno.h>
+#include <poll.h>
 #include <pthread.h>
 #include <stdatomic.h>
+#include <sys/socket.h>
 #include <unistd.h>
 
 #define MAXPEERS 4
 #define MAXWORK 6
 #define LONG_MS 10000
 #define MAXWORDS 16
+#define BIG_MIN (3u << 20) // a reply this big cannot disappear into the socket buffers of a peer that does not read
+#define BIG_VAR (1u << 20)
+#define RBUF_CAP (BIG_MIN + BIG_VAR + 8192)
 
-enum { D_NORMAL, D_DROP };
+// D_HOLD: the worker keeps the survey until its surveyor's connection is gone,
+// then answers.  D_BIG: the answer is padded to several megabytes.
+enum { D_NORMAL, D_DROP, D_HOLD, D_BIG };
 enum { PK_TCP, PK_XSURV };
 static const char *pkname[2] = { "rawtcp", "xsurveyor" };
-enum { R_NONE, R_OUT, R_ANSWERED, R_DROP };
+enum { R_NONE, R_OUT, R_ANSWERED, R_DROP, R_CANCELLED };
 
 typedef struct {
 	int      tran; // transport of the nng raw SURVEYOR peers
@@ -46,6 +68,7 @@ typedef struct {
 	int      kind[MAXPEERS];
 	bool     use_sock;
 	int      dies; // index of a raw TCP connection that is cut mid-window, or -1
+	bool     stalls; // raw TCP surveyors stop reading now and then
 	long     exchanges;
 	int      jit_permille, jit_us;
 	uint32_t nonce;
@@ -65,7 +88,21 @@ static struct {
 	uint16_t      tcp_port;
 	uint32_t      common[MAXWORDS]; // a backtrace all peers may use
 	_Atomic long  consumed[MAXPEERS]; // surveys of a peer taken by the workers
+	_Atomic int   removed;            // pipes the RESPONDENT has removed (NNG_PIPE_EV_REM_POST)
+	_Atomic bool  died[MAXPEERS];     // the harness closed this surveyor connection
+	_Atomic uint32_t stall[MAXPEERS]; // odd while the raw TCP surveyor is not reading
+	_Atomic uint8_t *wst[MAXPEERS];   // per survey: 1 = the send of its reply ended with NNG_ECANCELED
+	uint32_t         wst_n[MAXPEERS];
 } G;
+
+static void
+pipe_removed_cb(nng_pipe p, nng_pipe_ev ev, void *arg)
+{
+	(void) p;
+	(void) ev;
+	(void) arg;
+	atomic_fetch_add(&G.removed, 1);
+}
 
 static uint32_t
 get32(const uint8_t *p)
@@ -95,14 +132,36 @@ errname(int rv)
 }
 
 // ------------------------------------------------------------ workers
+// a send that is not waited for at once
+typedef struct {
+	nng_aio    *aio;
+	_Atomic int done;
+	bool        inflight, across_recv, big;
+	int         peer;
+	uint64_t    seq;
+	uint32_t    epoch; // G.stall[peer] when the send was issued
+	uint32_t    epoch_done; // ... and when its completion callback ran
+} sslot;
+
 typedef struct {
 	int            idx;
 	bool           is_sock;
 	nng_ctx        ctx;
 	const casecfg *cc;
 	pthread_t      thr;
-	long           served, dropped, replaced_other_peer, estate_fresh, estate_second, recv_timeouts;
+	sslot          ss[2];
+	nng_aio       *pa; // for sends that must be refused
+	bool           closed;
+	long           served, dropped, replaced_other_peer, estate_fresh, estate_second, estate_orphan, estate_parked, recv_timeouts, parked, superseded, pending_across_recv, big_sent, held, held_gone;
 } worker;
+
+static void
+ss_cb(void *arg)
+{
+	sslot *sl = arg;
+	sl->epoch_done = atomic_load(&G.stall[sl->peer]);
+	atomic_store(&sl->done, 1);
+}
 
 static void
 w_send(worker *w, nng_aio *aio)
@@ -138,17 +197,58 @@ expect_estate_send(worker *w, nng_aio *aio, const char *where)
 	return true;
 }
 
+// the send in this slot is complete: what became of it
+static void
+ss_finalize(worker *w, sslot *sl)
+{
+	int      rv = nng_aio_result(sl->aio);
+	nng_msg *m;
+	sl->inflight = false;
+	if (rv != 0) {
+		if ((m = nng_aio_get_msg(sl->aio)) != NULL) nng_msg_free(m);
+		nng_aio_set_msg(sl->aio, NULL);
+	}
+	if (rv == 0) {
+		w->served++;
+		if (sl->big) w->big_sent++;
+		// it was issued while its surveyor was not reading, was still pending
+		// when the worker's next receive had completed, and its completion
+		// callback ran only after the surveyor had resumed: it waited for the pipe
+		if (sl->across_recv && (sl->epoch & 1) && sl->epoch_done != sl->epoch) w->parked++;
+	} else if (rv == NNG_ECANCELED) {
+		// nobody cancelled it: a later reply of this context took its place
+		// in the queue of a busy pipe.  The surveyor will never see it.
+		w->superseded++;
+		if (sl->seq < G.wst_n[sl->peer]) atomic_store(&G.wst[sl->peer][sl->seq], 1);
+	} else if (rv == NNG_ECLOSED) {
+		w->closed = true;
+	} else {
+		char key[96];
+		snprintf(key, sizeof(key), "C07/respond/send-failed/%s", errname(rv));
+		vf_violation(key, "RESPONDENT %s %d: response to peer %d seq %llu failed: %s", w->is_sock ? "socket" : "context", w->idx, sl->peer, (unsigned long long) sl->seq, nng_strerror(rv));
+	}
+}
+
 static void *
 worker_thread(void *arg)
 {
 	worker  *w = arg;
 	nng_aio *aio;
 	vf_rng   r;
-	int      last_drop_peer = -1;
+	int      last_drop_peer = -1, next_slot = 0;
 	vf_rng_seed(&r, w->cc->key, 300 + (uint64_t) w->idx);
-	if (nng_aio_alloc(&aio, NULL, NULL) != 0) vf_harness_fail("aio alloc");
-	if (expect_estate_send(w, aio, "fresh")) w->estate_fresh++;
-	while (!atomic_load(&G.stop)) {
+	if (nng_aio_alloc(&aio, NULL, NULL) != 0 || nng_aio_alloc(&w->pa, NULL, NULL) != 0) vf_harness_fail("aio alloc");
+	for (int k = 0; k < 2; k++) {
+		if (nng_aio_alloc(&w->ss[k].aio, ss_cb, &w->ss[k]) != 0) vf_harness_fail("aio alloc");
+	}
+	if (expect_estate_send(w, w->pa, "fresh")) w->estate_fresh++;
+	while (!atomic_load(&G.stop) && !w->closed) {
+		for (int k = 0; k < 2; k++) {
+			if (w->ss[k].inflight && atomic_load(&w->ss[k].done)) {
+				nng_aio_wait(w->ss[k].aio);
+				ss_finalize(w, &w->ss[k]);
+			}
+		}
 		nng_aio_set_timeout(aio, 20);
 		if (w->is_sock) {
 			nng_socket_recv(G.resp, aio);
@@ -157,6 +257,14 @@ worker_thread(void *arg)
 		}
 		nng_aio_wait(aio);
 		int rv = nng_aio_result(aio);
+		for (int k = 0; k < 2 && (rv == 0 || rv == NNG_ETIMEDOUT); k++) {
+			// an earlier reply is still on its way out although this context
+			// has been through its next receive (and may hold the next survey)
+			if (w->ss[k].inflight && !atomic_load(&w->ss[k].done) && !w->ss[k].across_recv) {
+				w->ss[k].across_recv = true;
+				if (rv == 0) w->pending_across_recv++;
+			}
+		}
 		if (rv == NNG_ETIMEDOUT) {
 			w->recv_timeouts++;
 			continue;
@@ -172,40 +280,82 @@ worker_thread(void *arg)
 			continue;
 		}
 		nng_msg_free(m);
-		int peer = (int) (tag & 0xff);
+		int peer = (int) (tag & 0xff), dir = (int) ((tag >> 8) & 0xff);
 		atomic_fetch_add(&G.consumed[peer], 1);
-		if (((tag >> 8) & 0xff) == D_DROP) {
+		if (dir == D_DROP) {
 			w->dropped++; // never answered; the next receive replaces it
 			last_drop_peer = peer;
 			continue;
 		}
 		if (last_drop_peer >= 0 && last_drop_peer != peer) w->replaced_other_peer++;
 		last_drop_peer = -1;
-		if (vf_chance(&r, 1, 8)) vf_usleep((int) vf_below(&r, 400));
-		uint8_t buf[24 + 64 + 8];
-		size_t  bl = VF_BODY_MIN + vf_below(&r, 64);
-		vf_body_make(buf, bl, tag, seq);
-		put32(buf + bl, (uint32_t) w->idx);
-		put32(buf + bl + 4, 0);
-		if (nng_msg_alloc(&m, 0) != 0) vf_harness_fail("msg alloc");
-		nng_msg_append(m, buf, bl + 8);
-		nng_aio_set_msg(aio, m);
-		nng_aio_set_timeout(aio, LONG_MS);
-		w_send(w, aio);
-		nng_aio_wait(aio);
-		if ((rv = nng_aio_result(aio)) != 0) {
-			if ((m = nng_aio_get_msg(aio)) != NULL) nng_msg_free(m);
-			nng_aio_set_msg(aio, NULL);
-			if (rv == NNG_ECLOSED) break;
-			char key[96];
-			snprintf(key, sizeof(key), "C07/respond/send-failed/%s", errname(rv));
-			vf_violation(key, "RESPONDENT %s %d: response to peer %u seq %llu failed: %s", w->is_sock ? "socket" : "context", w->idx, tag & 0xff, (unsigned long long) seq, nng_strerror(rv));
-			continue;
+		bool gone = false;
+		if (dir == D_HOLD) {
+			// answer only when the surveyor's connection is gone for the
+			// RESPONDENT as well (it has removed the pipe)
+			w->held++;
+			for (int i = 0; i < 15000 && !atomic_load(&G.stop); i++) {
+				if (atomic_load(&G.died[peer]) && atomic_load(&G.removed) > 0) {
+					gone = true;
+					break;
+				}
+				vf_usleep(200);
+			}
+			if (gone) w->held_gone++;
+		} else if (vf_chance(&r, 1, 8)) {
+			vf_usleep((int) vf_below(&r, 400));
 		}
-		w->served++;
-		// exactly one response per survey
-		if (vf_chance(&r, 1, 5) && expect_estate_send(w, aio, "after-response")) w->estate_second++;
+		// a free send slot; the older one if both are still out
+		sslot *sl = &w->ss[next_slot];
+		if (sl->inflight) sl = &w->ss[next_slot ^ 1];
+		if (sl->inflight) {
+			sl = &w->ss[next_slot];
+			nng_aio_wait(sl->aio);
+			ss_finalize(w, sl);
+			if (w->closed) break;
+		}
+		next_slot = (int) (sl - w->ss) ^ 1;
+		size_t  bl = VF_BODY_MIN + vf_below(&r, 64);
+		size_t  pad = dir == D_BIG ? BIG_MIN + vf_below(&r, BIG_VAR) : 0;
+		if (nng_msg_alloc(&m, pad + bl + 8) != 0) vf_harness_fail("msg alloc");
+		uint8_t *b = nng_msg_body(m);
+		if (pad) memset(b, (int) (0xa5 ^ (uint8_t) seq), pad);
+		vf_body_make(b + pad, bl, tag, seq);
+		put32(b + pad + bl, (uint32_t) w->idx);
+		put32(b + pad + bl + 4, (uint32_t) pad);
+		nng_aio_set_msg(sl->aio, m);
+		nng_aio_set_timeout(sl->aio, LONG_MS);
+		atomic_store(&sl->done, 0);
+		sl->inflight = true;
+		sl->across_recv = false;
+		sl->big = pad != 0;
+		sl->peer = peer;
+		sl->seq = seq;
+		sl->epoch = atomic_load(&G.stall[peer]);
+		w_send(w, sl->aio);
+		if (!sl->big) {
+			nng_aio_wait(sl->aio);
+			ss_finalize(w, sl);
+			if (w->closed) break;
+		}
+		// exactly one response per survey, whether the first one has left,
+		// waits for its pipe, or was dropped because its surveyor is gone
+		if (gone) {
+			if (expect_estate_send(w, w->pa, "after-reply-to-gone-surveyor")) w->estate_orphan++;
+		} else if (sl->big) {
+			if (vf_chance(&r, 1, 2) && expect_estate_send(w, w->pa, "after-response-not-yet-sent")) w->estate_parked++;
+		} else if (vf_chance(&r, 1, 5) && expect_estate_send(w, w->pa, "after-response")) {
+			w->estate_second++;
+		}
 	}
+	for (int k = 0; k < 2; k++) {
+		if (w->ss[k].inflight) {
+			nng_aio_wait(w->ss[k].aio);
+			ss_finalize(w, &w->ss[k]);
+		}
+		nng_aio_free(w->ss[k].aio);
+	}
+	nng_aio_free(w->pa);
 	nng_aio_free(aio);
 	return NULL;
 }
@@ -223,19 +373,21 @@ typedef struct {
 	uint32_t       nrecs;
 	bool           failed, died;
 	_Atomic bool   finished;
-	long           orphaned;
-	long           sent, verified, drops, common_used, maxwin;
+	long           orphaned, held_sent;
+	uint8_t       *rbuf; // raw TCP: room for a padded reply
+	uint32_t       lo;   // no survey below this number is still outstanding
+	long           sent, verified, drops, common_used, maxwin, stalls, big_surveys, big_verified, cancelled;
 	long           by_hops[MAXWORDS];
 	bool           seen_worker[MAXWORK];
 } peer;
 
 static int
-peer_send(peer *p, uint32_t seq, bool last)
+peer_send(peer *p, uint32_t seq, bool last, int force_dir)
 {
 	const casecfg *cc = p->cc;
 	vf_rng        *r = &p->rng;
 	svrec         *rc = &p->recs[seq];
-	int            dir = (!last && vf_chance(r, 1, 8)) ? D_DROP : D_NORMAL;
+	int            dir = force_dir >= 0 ? force_dir : (!last && vf_chance(r, 1, 8)) ? D_DROP : D_NORMAL;
 	int            hops = (int) vf_below(r, (uint32_t) cc->ttl); // + id word <= ttl words
 	size_t         bl = VF_BODY_MIN + (vf_chance(r, 1, 12) ? vf_below(r, 1500) : vf_below(r, 100));
 	uint8_t        buf[8 + 4 * MAXWORDS + VF_BODY_MIN + 1600];
@@ -282,10 +434,18 @@ peer_judge(peer *p, const uint32_t *bt, int nbt, const uint8_t *body, size_t len
 	uint32_t tag;
 	uint64_t seq;
 	char     key[128];
-	if (len < VF_BODY_MIN + 8 || vf_body_check(body, len - 8, &tag, &seq) != 0) {
+	size_t   pad = len >= VF_BODY_MIN + 8 ? get32(body + len - 4) : 0;
+	if (len < VF_BODY_MIN + 8 || pad > len - VF_BODY_MIN - 8 || vf_body_check(body + pad, len - pad - 8, &tag, &seq) != 0) {
 		snprintf(key, sizeof(key), "C07/respond/garbled/%s", pkname[p->kind]);
 		vf_violation(key, "peer %d: a response of %zu bytes with a %d-word backtrace is not an echo of any survey", p->idx, len, nbt);
 		return false;
+	}
+	for (size_t i = 0; i < pad; i += 4093) {
+		if (body[i] != (uint8_t) (0xa5 ^ (uint8_t) seq) || body[pad - 1] != body[i]) {
+			snprintf(key, sizeof(key), "C07/respond/garbled/%s/padding", pkname[p->kind]);
+			vf_violation(key, "peer %d: the %zu padding bytes of the response to seq %llu are damaged at offset %zu", p->idx, pad, (unsigned long long) seq, i);
+			return false;
+		}
 	}
 	uint32_t widx = get32(body + len - 8);
 	if ((tag >> 16) != p->cc->nonce || (int) (tag & 0xff) != p->idx) {
@@ -304,6 +464,11 @@ peer_judge(peer *p, const uint32_t *bt, int nbt, const uint8_t *body, size_t len
 		vf_violation(key, "connection %d received a response (by worker %u) for seq %llu, a survey the application received and then replaced by a later one", p->idx, widx, (unsigned long long) seq);
 		return false;
 	}
+	if (rc->state == R_CANCELLED) {
+		snprintf(key, sizeof(key), "C07/respond/unsolicited/%s/superseded-reply", pkname[p->kind]);
+		vf_violation(key, "connection %d received the response (by worker %u) for seq %llu although the send of that response had ended with NNG_ECANCELED (the context had sent its next reply meanwhile)", p->idx, widx, (unsigned long long) seq);
+		return false;
+	}
 	if (rc->state == R_ANSWERED) {
 		snprintf(key, sizeof(key), "C07/respond/duplicate/%s", pkname[p->kind]);
 		vf_violation(key, "connection %d received a second response (by worker %u) for seq %llu", p->idx, widx, (unsigned long long) seq);
@@ -316,6 +481,7 @@ peer_judge(peer *p, const uint32_t *bt, int nbt, const uint8_t *body, size_t len
 		return true;
 	}
 	p->verified++;
+	if (pad) p->big_verified++;
 	if (widx < MAXWORK) p->seen_worker[widx] = true;
 	return true;
 }
@@ -328,9 +494,13 @@ peer_recv(peer *p, int timeout_ms)
 	int      nbt = 0;
 	char     key[96];
 	if (p->kind == PK_TCP) {
-		static _Thread_local uint8_t buf[4096];
-		long len = vf_sp_recv_frame(p->fd, false, buf, sizeof(buf), timeout_ms);
-		if (len < 0) return -1;
+		// wait for the first byte only; a frame that has begun is read in
+		// full however long that takes
+		uint8_t      *buf = p->rbuf;
+		struct pollfd pf = { p->fd, POLLIN, 0 };
+		if (poll(&pf, 1, timeout_ms) <= 0) return -1;
+		long len = vf_sp_recv_frame(p->fd, false, buf, RBUF_CAP, LONG_MS);
+		if (len < 0) return -2; // connection broken
 		size_t off = 0;
 		bool   end = false;
 		while (!end && off + 4 <= (size_t) len && nbt < MAXWORDS) {
@@ -363,28 +533,85 @@ peer_recv(peer *p, int timeout_ms)
 	return ok ? 0 : 1;
 }
 
+// surveys whose reply the RESPONDENT application saw cancelled (superseded by
+// the context's next reply) are not outstanding any more
+static long
+peer_reap_cancelled(peer *p, uint32_t seq)
+{
+	long n = 0;
+	while (p->lo <= seq && p->recs[p->lo].state != R_OUT) p->lo++;
+	for (uint32_t q = p->lo; q <= seq; q++) {
+		if (p->recs[q].state == R_OUT && atomic_load(&G.wst[p->idx][q]) == 1) {
+			p->recs[q].state = R_CANCELLED;
+			p->cancelled++;
+			n++;
+		}
+	}
+	return n;
+}
+
 static void *
 peer_thread(void *arg)
 {
 	peer          *p = arg;
 	const casecfg *cc = p->cc;
 	uint32_t       seq = 0;
-	long           n = p->quota, sent = 0, out = 0, bad = 0;
+	long           n = p->quota, sent = 0, out = 0, bad = 0, waited = 0;
 	long           die_at = cc->dies == p->idx ? n / 4 + (long) vf_below(&p->rng, (uint32_t) (n / 2)) : -1;
+	int            nstalls = p->kind == PK_TCP && cc->stalls ? (int) vf_range(&p->rng, 2, 4) : 0;
+	long           stall_every = nstalls ? n / (nstalls + 1) : 0, next_stall = stall_every;
+	p->lo = 1;
 	while (!p->failed && (sent < n || out > 0)) {
 		if (die_at >= 0 && sent >= die_at && out > 0) {
 			// the surveyor goes away with surveys held by (or queued for) the
 			// workers: their responses have nowhere to go - certainly not to
-			// another connection
+			// another connection.  Some of them are kept by the workers until
+			// the RESPONDENT has noticed, and answered then.
+			int k = (int) vf_range(&p->rng, 1, 3);
+			if (k > cc->nworkers) k = cc->nworkers;
+			for (int i = 0; i < k && sent < n; i++) {
+				if (peer_send(p, ++seq, false, D_HOLD) < 0) break;
+				sent++;
+				out++;
+				p->held_sent++;
+			}
+			for (int i = 0; i < 15000 && atomic_load(&G.consumed[p->idx]) < sent; i++) vf_usleep(200);
 			p->orphaned = out;
 			p->died = true;
+			atomic_store(&G.died[p->idx], true);
 			close(p->fd);
 			break;
+		}
+		if (nstalls > 0 && sent >= next_stall && sent + 16 < n && (die_at < 0 || sent + 16 < die_at)) {
+			// stop reading and ask for more big replies than there are
+			// workers: the pipe to this peer stays busy, replies queue up
+			// behind it, and a context that gets a second survey of the
+			// burst replaces its queued reply
+			int burst = (int) vf_range(&p->rng, 2, (uint32_t) (2 * cc->nworkers + 2));
+			if (burst > 12) burst = 12;
+			nstalls--;
+			next_stall += stall_every;
+			atomic_fetch_add(&G.stall[p->idx], 1);
+			for (int i = 0; i < burst && !p->failed; i++) {
+				if (peer_send(p, ++seq, false, D_BIG) < 0) {
+					vf_violation("C07/respond/connection-lost", "connection %d (%s): sending survey %u failed", p->idx, pkname[p->kind], seq);
+					p->failed = true;
+					break;
+				}
+				sent++;
+				out++;
+				p->big_surveys++;
+			}
+			vf_msleep((int) vf_range(&p->rng, 50, 200));
+			atomic_fetch_add(&G.stall[p->idx], 1);
+			p->stalls++;
+			if (out > p->maxwin) p->maxwin = out;
+			continue;
 		}
 		// at most 'window' surveys between this peer and the workers: the raw
 		// nng surveyor drops what its 16-deep pipe queue cannot take
 		while (sent < n && out < cc->window && !p->failed && sent - atomic_load(&G.consumed[p->idx]) < cc->window) {
-			int rv = peer_send(p, ++seq, sent == n - 1);
+			int rv = peer_send(p, ++seq, sent == n - 1, -1);
 			sent++;
 			if (rv < 0) {
 				vf_violation("C07/respond/connection-lost", "connection %d (%s): sending survey %u failed", p->idx, pkname[p->kind], seq);
@@ -395,13 +622,18 @@ peer_thread(void *arg)
 			}
 		}
 		if (p->failed) break;
-		if (out == 0) {
+		out -= peer_reap_cancelled(p, seq);
+		if (out <= 0) {
+			out = 0;
 			if (sent < n) vf_usleep(100); // dropped surveys still on their way
 			continue;
 		}
-		int rv = peer_recv(p, LONG_MS);
+		int rv = peer_recv(p, 50);
 		if (rv == 0) {
 			out--;
+			waited = 0;
+		} else if (rv == -1 && (waited += 50) < LONG_MS) {
+			continue; // look for cancelled replies, then wait on
 		} else if (rv < 0) {
 			char key[96];
 			snprintf(key, sizeof(key), "C07/respond/lost/%s", pkname[p->kind]);
@@ -429,19 +661,27 @@ run_case(long idx, const casecfg *cc)
 	vf_rng       r;
 	long         probe_idle_ctx = 0, probe_idle_sock = 0;
 
-	vf_case_begin(idx, "peers=%d(%s%s%s%s) cut=%d workers=%d%s ttl=%d window=%d exchanges=%ld xtran=%s jitter=%d/%dus key=%llx", cc->npeers, pkname[cc->kind[0]],
-	    cc->npeers > 1 ? pkname[cc->kind[1]] : "", cc->npeers > 2 ? pkname[cc->kind[2]] : "", cc->npeers > 3 ? pkname[cc->kind[3]] : "", cc->dies, cc->nworkers, cc->use_sock ? "+sock" : "", cc->ttl,
+	vf_case_begin(idx, "peers=%d(%s%s%s%s) cut=%d stalls=%d workers=%d%s ttl=%d window=%d exchanges=%ld xtran=%s jitter=%d/%dus key=%llx", cc->npeers, pkname[cc->kind[0]],
+	    cc->npeers > 1 ? pkname[cc->kind[1]] : "", cc->npeers > 2 ? pkname[cc->kind[2]] : "", cc->npeers > 3 ? pkname[cc->kind[3]] : "", cc->dies, (int) cc->stalls, cc->nworkers, cc->use_sock ? "+sock" : "", cc->ttl,
 	    cc->window, cc->exchanges, vf_tran_names[cc->tran], cc->jit_permille, cc->jit_us, (unsigned long long) cc->key);
 	vf_watchdog(240);
 	vf_rng_seed(&r, cc->key, 1);
 	atomic_store(&G.stop, false);
-	for (int i = 0; i < MAXPEERS; i++) atomic_store(&G.consumed[i], 0);
+	atomic_store(&G.removed, 0);
+	for (int i = 0; i < MAXPEERS; i++) {
+		atomic_store(&G.consumed[i], 0);
+		atomic_store(&G.died[i], false);
+		atomic_store(&G.stall[i], 0);
+		G.wst[i] = NULL;
+		G.wst_n[i] = 0;
+	}
 	for (int i = 0; i < MAXWORDS; i++) G.common[i] = (uint32_t) vf_rand(&r) & 0x7fffffffu;
 	G.common[MAXWORDS - 1] |= 0x80000000u;
 
 	if ((rv = nng_respondent0_open(&G.resp)) != 0) vf_harness_fail("respondent open: %s", nng_strerror(rv));
 	nng_socket_set_int(G.resp, NNG_OPT_MAXTTL, cc->ttl);
 	nng_socket_set_size(G.resp, NNG_OPT_RECVMAXSZ, 0);
+	if ((rv = nng_pipe_notify(G.resp, NNG_PIPE_EV_REM_POST, pipe_removed_cb, NULL)) != 0) vf_harness_fail("pipe notify: %s", nng_strerror(rv));
 	if ((rv = nng_listen(G.resp, "tcp://127.0.0.1:0", &lt, 0)) != 0) vf_harness_fail("respondent listen tcp: %s", nng_strerror(rv));
 	if ((rv = nng_listener_get_int(lt, NNG_OPT_BOUND_PORT, &port)) != 0) vf_harness_fail("bound port");
 	G.tcp_port = (uint16_t) port;
@@ -461,10 +701,16 @@ run_case(long idx, const casecfg *cc)
 		p->quota = cc->exchanges / cc->npeers + (i < cc->exchanges % cc->npeers ? 1 : 0);
 		p->nrecs = (uint32_t) p->quota + 2;
 		p->recs = calloc(p->nrecs, sizeof(svrec));
+		G.wst[i] = calloc(p->nrecs, 1);
+		G.wst_n[i] = p->nrecs;
+		if (p->kind == PK_TCP && (p->rbuf = malloc(RBUF_CAP)) == NULL) vf_harness_fail("malloc");
 		vf_rng_seed(&p->rng, cc->key, 200 + (uint64_t) i);
 		if (p->kind == PK_TCP) {
 			uint16_t peerproto = 0;
 			if ((p->fd = vf_tcp_connect(G.tcp_port, 5000)) < 0) vf_harness_fail("raw connect");
+			// a small receive buffer: what this peer does not read stays with the RESPONDENT
+			int rb = 32768;
+			setsockopt(p->fd, SOL_SOCKET, SO_RCVBUF, &rb, sizeof(rb));
 			if (vf_sp_handshake(p->fd, 0x62, &peerproto, 5000) != 0 || peerproto != 0x63) vf_harness_fail("raw handshake (peer %04x)", peerproto);
 		} else {
 			if ((rv = nng_surveyor0_open_raw(&p->xs)) != 0) vf_harness_fail("xsurveyor open");
@@ -531,13 +777,18 @@ run_case(long idx, const casecfg *cc)
 	for (int i = 0; i < cc->nworkers; i++) pthread_join(wk[i].thr, NULL);
 
 	// evidence
-	long verified = 0, sent = 0, drops = 0, served = 0, wdrops = 0, common = 0, replaced = 0;
+	long verified = 0, sent = 0, drops = 0, served = 0, wdrops = 0, common = 0, replaced = 0, stalls = 0, bigs = 0, bigv = 0, cancelled = 0, held = 0;
 	for (int i = 0; i < cc->npeers; i++) {
 		peer *p = &pr[i];
 		verified += p->verified;
 		sent += p->sent;
 		drops += p->drops;
 		common += p->common_used;
+		stalls += p->stalls;
+		bigs += p->big_surveys;
+		bigv += p->big_verified;
+		cancelled += p->cancelled;
+		held += p->held_sent;
 		for (int h = 0; h < MAXWORDS; h++) {
 			if (p->by_hops[h]) vf_class("respond/%s/hops=%d/window=%d/%s", pkname[p->kind], h, cc->window > 1 ? (cc->window > 4 ? 8 : 4) : 1, cc->use_sock ? "sock+ctx" : "ctx");
 		}
@@ -554,6 +805,9 @@ run_case(long idx, const casecfg *cc)
 			nng_socket_close(p->xs);
 		}
 		free(p->recs);
+		free(p->rbuf);
+		free((void *) G.wst[i]);
+		G.wst[i] = NULL;
 	}
 	for (int i = 0; i < cc->nworkers; i++) {
 		worker *w = &wk[i];
@@ -562,6 +816,18 @@ run_case(long idx, const casecfg *cc)
 		replaced += w->replaced_other_peer;
 		vf_stat("estate_respondent_send_fresh", w->estate_fresh);
 		vf_stat("estate_respondent_send_after_response", w->estate_second);
+		vf_stat("estate_respondent_send_after_orphan_reply", w->estate_orphan);
+		vf_stat("estate_respondent_send_after_response_not_yet_sent", w->estate_parked);
+		vf_stat("respondent_surveys_held_until_connection_gone", w->held_gone);
+		vf_stat("respondent_surveys_held", w->held);
+		vf_stat("respondent_replies_pending_across_next_receive", w->pending_across_recv);
+		vf_stat("respondent_replies_parked_behind_busy_pipe", w->parked + w->superseded); // a superseded reply was waiting for its pipe
+		vf_stat("respondent_replies_parked_then_sent", w->parked);
+		vf_stat("respondent_replies_superseded_while_parked", w->superseded);
+		vf_stat("respondent_big_replies_sent", w->big_sent);
+		if (w->parked) vf_class("respond/reply-parked-behind-busy-pipe/%s/workers=%d", w->is_sock ? "socket" : "context", cc->nworkers);
+		if (w->superseded) vf_class("respond/parked-reply-superseded/%s/workers=%d", w->is_sock ? "socket" : "context", cc->nworkers);
+		if (w->estate_orphan) vf_class("respond/send-after-reply-to-gone-surveyor/%s", w->is_sock ? "socket" : "context");
 		if (!w->is_sock) nng_ctx_close(w->ctx);
 	}
 	vf_stat("respondent_surveys", sent);
@@ -571,6 +837,11 @@ run_case(long idx, const casecfg *cc)
 	vf_stat("respondent_replaced_seen_by_workers", wdrops);
 	vf_stat("respondent_replaced_by_other_connection", replaced);
 	vf_stat("respondent_shared_backtrace_surveys", common);
+	vf_stat("respondent_surveyor_stalls", stalls);
+	vf_stat("respondent_big_reply_surveys", bigs);
+	vf_stat("respondent_big_replies_verified", bigv);
+	vf_stat("respondent_replies_cancelled_seen_by_surveyor", cancelled);
+	vf_stat("respondent_hold_surveys_sent", held);
 	vf_stat("estate_respondent_send_idle_ctx", probe_idle_ctx);
 	vf_stat("estate_respondent_send_idle_sock", probe_idle_sock);
 	vf_stat("respondent_connections", cc->npeers);
@@ -605,11 +876,16 @@ main(int argc, char **argv)
 		for (int i = 0; i < MAXPEERS; i++) c.kind[i] = vf_chance(&r, 1, 2) ? PK_TCP : PK_XSURV;
 		c.nworkers = (int) vf_range(&r, 1, MAXWORK);
 		c.use_sock = vf_chance(&r, 1, 2);
+		// one raw TCP surveyor (if there is one) is cut with surveys in the
+		// workers' hands
 		c.dies = -1;
-		if (vf_chance(&r, 1, 2)) {
+		{
 			int d = (int) vf_below(&r, (uint32_t) c.npeers);
-			if (c.kind[d] == PK_TCP) c.dies = d;
+			for (int i = 0; i < c.npeers && c.dies < 0; i++) {
+				if (c.kind[(d + i) % c.npeers] == PK_TCP) c.dies = (d + i) % c.npeers;
+			}
 		}
+		c.stalls = !vf_chance(&r, 1, 4);
 		uint32_t k = vf_below(&r, 4);
 		c.ttl = k == 0 ? 15 : k == 1 ? (int) vf_range(&r, 1, 4) : 8;
 		c.window = (int) vf_range(&r, 1, 8);
